@@ -109,6 +109,9 @@ ASSUMPTIONS = ["PARTIAL: scipy's integrators (odeint; ode: lsoda/vode/dopri5/dop
                "(which integrator refuses depends on the method, on full_output and, through the eigenvalue-driven restart, on the state); "
                "pygom.integrate does not look at odeint's success flag, so where scipy's odeint itself fails (first output within 4 ulps of "
                "t0) its rows are uninitialised memory - observed, outside the assumption 'the solver approximates the flow', not judged",
+               "an IntegrationError raised by an scipy.integrate.ode based entry point is not judged when scipy's own integrator for that method "
+               "(Lean right-hand side, no pygom) fails on the same instance (observed: derivative exactly zero at x0, far negative t0, "
+               "increments that are not representable - lsoda reports illegal input): tagged scipy-ode-refuses-this-instance",
                "random runtime instances are restricted to well-conditioned ones: reference exists, |x| <= 1e3, "
                "exp(int max(mu_2(J),0) dt) <= 20 along the reference, odeint at 1e-10 within 1e-8 (1+|ref|); others are rejected, "
                "counted in the input distribution, never judged",
@@ -619,7 +622,7 @@ def make_fake_odeint(c, log):
         t = np.asarray(t, dtype=float)
         log.append({"odeint_times": [float(v) for v in t]})
         rows = np.array([y0 + cvec[:len(y0)] * (ti - t[0]) for ti in t])
-        return (rows, {"message": "fake"}) if full_output else rows
+        return (rows, {"message": "Integration successful."}) if full_output else rows      # what scipy says on success
     return odeint
 
 
@@ -1046,6 +1049,42 @@ def direct_solver_error(f, x0, t0, grid, ref):
     return out
 
 
+def scipy_ode_refuses(f, x0, t0, grid, method):
+    """does scipy's own `ode` integrator (the one documented for `method`, pygom's tolerances, the Lean right-hand side with a
+    finite-difference Jacobian - no pygom involved) fail on this instance, stepping through the grid with one integrator or with a
+    fresh one per step?  Observed on scipy 1.18: a derivative that is exactly zero at x0, a far negative t0 and increments that are
+    not representable make lsoda report 'illegal input'.  Where scipy itself gives up the assumption 'the solver approximates the
+    flow' fails on the instance and an IntegrationError raised by pygom is right, not a violation."""
+    import warnings
+    import scipy.integrate as si
+    name = DOC_INTEGRATOR.get(method, "lsoda")
+    kw = {"method": "bdf"} if name == "vode:bdf" else {}
+
+    def make(x, t):
+        args = (lambda t_, x_: f(t_, x_),) if name.startswith("dop") else (lambda t_, x_: f(t_, x_), lambda t_, x_: fd_jac(f, t_, x_))
+        r = si.ode(*args).set_integrator(name.split(":")[0], nsteps=10000, atol=1e-10, rtol=1e-10, **kw)
+        r.set_initial_value(np.array(x, dtype=float), float(t))
+        return r
+    try:
+        with warnings.catch_warnings():
+            warnings.simplefilter("ignore")
+            r = make(x0, t0)
+            for t in grid:
+                r.integrate(float(t))
+                if not r.successful():
+                    return True
+            x, tc = np.array(x0, dtype=float), float(t0)
+            for t in grid:
+                r = make(x, tc)
+                r.integrate(float(t))
+                if not r.successful():
+                    return True
+                x, tc = r.y.copy(), float(t)
+    except Exception:
+        return True
+    return False
+
+
 class _Rec(object):
     """records which scipy integrator the real code sets up (no change of behaviour)"""
 
@@ -1214,9 +1253,20 @@ def run_runtime(case):
             finally:
                 rec.remove()
         except Exception as exc:
+            if "method=odeint" in sig and type(exc).__name__ in ZERO_STEP_ERRORS and (
+                    not np.isfinite(acc_odeint) or info.get("first_step_degenerate") or
+                    (g is not grid and 0 < abs(g[0] - t0) <= 4 * float(np.spacing(max(abs(g[0]), abs(t0)))))):
+                # scipy's own odeint reports failure on this instance: an entry point that says so instead of handing out the rows
+                # (proposed_fixes/C02-odeint-failure-ignored.diff) is not judged either
+                tags.append("odeint-failure-reported:%s:not-judged" % sig.split(":")[0])
+                return
             if degenerate_steps(t0, g) and type(exc).__name__ in ZERO_STEP_ERRORS and "method=odeint" not in sig:
                 # unchanged pygom / scipy: an `ode` integrator asked for a step of (nearly) zero length reports failure
                 tags.append("zero-length-step:%s:%s:not-judged" % (sig.split(":full_output")[0], type(exc).__name__))
+                return
+            if type(exc).__name__ in ZERO_STEP_ERRORS and "method=odeint" not in sig and \
+                    scipy_ode_refuses(f, x0, t0, g, sig.split("method=")[1].split(":")[0].replace("None", "") or None):
+                tags.append("scipy-ode-refuses-this-instance:%s:not-judged" % sig.split(":full_output")[0])
                 return
             viol.append({"what": "%s raised %s: %s" % (sig, type(exc).__name__, str(exc)[:200]),
                          "signature": sig + ":raised:" + type(exc).__name__, "detail": ""})
@@ -1949,6 +1999,17 @@ def run_session(case):
                                                  full_output=op["fo"], method=op["method"])
                 sol = res[0] if op["fo"] else res
         except Exception as exc:
+            if op["entry"] in ("integrate", "solve_determ") and type(exc).__name__ in ZERO_STEP_ERRORS and not np.isfinite(R["acc_odeint"]):
+                tags.append("session:odeint-failure-reported:not-judged")
+                counts["tagged"] += 1
+                L["last"], prev_inst[0] = now, i
+                continue
+            if type(exc).__name__ in ZERO_STEP_ERRORS and op["entry"] in ("integrate2", "integrateFuncJac") and not degenerate_steps(t0v, grid) \
+                    and scipy_ode_refuses(rhs(i, op["cfg"]), x0v, t0v, grid, op["method"]):
+                tags.append("session:scipy-ode-refuses-this-instance:not-judged")
+                counts["tagged"] += 1
+                L["last"], prev_inst[0] = now, i
+                continue
             if degenerate_steps(t0v, grid) and type(exc).__name__ in ZERO_STEP_ERRORS and op["entry"] in ("integrate2", "integrateFuncJac"):
                 tags.append("session:zero-length-first-step:%s:not-judged" % type(exc).__name__)
                 counts["tagged"] += 1
